@@ -53,6 +53,24 @@ def block_statements(treeline, text, ctxname):
     return out, f.get("errors", "")
 
 
+ASSIGN_TAIL = C.re.compile(r"(?<![=!<>+\-*/&|^%~])=(?!=)[^;{}]*;\s*$")
+
+
+def merged_assign_minus(sq, kind_of):
+    """the statement list one gets from `sq` when every statement that starts with `-` is glued to a directly
+    preceding statement that ends in an assignment (finding F09e), white space removed"""
+    out = []
+    for x in sq:
+        prev_assign = bool(out) and out[-1][1]
+        if x.lstrip().startswith("-") and prev_assign:
+            out[-1] = (out[-1][0] + "".join(x.split()), False)
+        else:
+            k = kind_of.get(x)
+            tail = k in ("ASSIGNMENT_STMT", "IF_STMT", "WHILE_STMT", "FOR_STMT") and bool(ASSIGN_TAIL.search(x)) and not x.rstrip().endswith("}")
+            out.append(("".join(x.split()), tail))
+    return [o[0] for o in out]
+
+
 def check(ctx):
     C.extract(ctx)
     C.prove(ctx, ["Oq3.Props.C16"] if C.os.path.exists(C.os.path.join(C.LEAN, "Oq3/Props/C16.lean")) else ["Oq3.Props.C01"])
@@ -72,6 +90,16 @@ def check(ctx):
         for k, s in sts:
             pool.setdefault(k, set()).add(s)
     extra = [";", "let a = q;", "x = 1;", "int x;", "end;", "break;", "continue;", "{ }", "{ x q; }", "pragma foo\n", "@ann x\n", "qubit q;", "return;", "barrier q;", "h q;"]
+    # one statement per FIRST token the statement dispatch and the Pratt/postfix loops look at: a statement that
+    # starts with `(`, `[`, `-`, `!`, a literal, a type keyword, `$`, a string ... may be glued to what precedes it
+    first_tok = ["(y);", "(a + b);", "(a)[0];", "-y;", "!c;", "1;", "1.5;", "a;", "a[0];", "f(x);", "a + b;", "{ x = 1; }",
+                 "\"s\";", "measure q;", "reset q;", "$0;", "delay[1ns] q;", "U(0,0,0) q;", "inv @ h q;", "gphase(1);",
+                 "bit[2](x);", "int(x);", "if (c) x = 1;", "if (c) { } else { }", "while (c) { }", "for int i in [0:1] { }",
+                 "gate g2 q { }", "def f2() { }", "let b = q ++ r;", "3ns;", "2im;", "true;", "x += 1;", "x[0] = 1;",
+                 "c = measure q;", "creg c[2];", "qreg q[2];", "const int n = 1;", "input int k;", "bit b = \"01\";",
+                 "switch (x) { case 1 { } }", "return x;", "ctrl @ x q, r;", "pow(2) @ h q;", "f();", "x = (1);", "(x) = 1;",
+                 "[0:1];", "{1, 2};", "a ++ b;", "box { }", "sizeof(a);", "defcalgrammar \"openpulse\";", "include \"stdgates.inc\";"]
+    extra += first_tok
     cand = sorted({s for v in pool.values() for s in list(v)[:40]} | set(extra))
     # statements that parse alone, error-free, as exactly one statement
     alone = C.run_impl(ctx, "tree", [G.enc(s) for s in cand], tag="a")
@@ -92,6 +120,11 @@ def check(ctx):
     for k1 in kinds:
         for k2 in kinds:
             seqs.append([rnd.choice(bykind[k1]), rnd.choice(bykind[k2])])
+    goodset = {s_ for s_, _ in good}
+    ft = [s_ for s_ in extra if s_ in goodset]
+    for s1 in ft:                    # every ordered pair of the first-token representatives
+        for s2 in ft:
+            seqs.append([s1, s2])
     for _ in range(3000 if q else 40000):
         seqs.append([rnd.choice(good)[0] for _ in range(rnd.randint(2, 6))])
     cases = []
@@ -133,6 +166,8 @@ def check(ctx):
                 guards.add("block_then_semicolon")
             if any(kind_of.get(x) == "CAST_EXPRESSION" for x in sq):
                 guards.add("cast_stmt_no_semicolon")
+            if errs == "" and merged_assign_minus(sq, kind_of) == ["".join(g.replace("/*c*/", "").split()) for g in got]:
+                guards.add("assign_then_minus")
             failures.append({"case": G.enc(text), "check": "compositional",
                              "detail": {"text": text, "context": cname, "expected": want, "got": got, "diagnostics": errs[:200]},
                              "guards": guards, "model_agrees": True,
